@@ -27,7 +27,7 @@ Theorem C12_no_error_iff_config : forall (kv : list (Z * Z)) (raw : config), raw
   l_s_bidi a <= c_mis c /\ l_s_uni a <= c_mius c /\
   l_cid a <= protoMaxActiveConnectionIDs /\
   Z.min (l_dgram a) (Z.min (l_udp a) protoMaxPacketBufferSize - minPacketOverhead) <= (if c_dg c then wireMaxDatagramSize else 0) /\
-  (0 < l_idle a /\ l_idle a <= c_idle c).
+  (if adv_idle_fin (l_idle a) then l_idle a <= c_idle c else noIdleNs <= c_idle c).
 Proof.
   exact (fun kv raw H =>
     iff_trans (no_error_iff (advertised kv) (enforced (populate raw)) (populated_enforced_sane raw H))
@@ -52,7 +52,7 @@ Print Assumptions C12_plain_client_ok.
 
 (** The spec-driven client (repaired newUClientConnection: the Config is raised to the spec's
     values before preSetup, the connection ID manager honours the advertised limit): for every
-    parameter list that advertises an idle timeout and stream counts within the protocol maximum,
+    parameter list with stream counts within the protocol maximum (with or without an idle timeout),
     and EVERY Config, enforced >= advertised, hence no locally generated error against a
     conformant peer. *)
 Theorem C12_spec_client_ok : forall (kv : list (Z * Z)) (c : config), spec_valid (advertised kv) ->
@@ -119,12 +119,19 @@ Theorem C12_old_witnesses_now_fine :
 Proof. exact old_witnesses_now_fine. Qed.
 Print Assumptions C12_old_witnesses_now_fine.
 
-(** Still refuted (open finding, only reachable with a hand-made spec): a parameter list without
-    max_idle_timeout tells the peer "no idle timeout", the client gives up after Config.MaxIdleTimeout. *)
-Theorem C12_idle_not_advertised_refuted : forall a (c : config), l_idle a <= 0 -> 0 < c_idle c ->
-  play a (enforced_spec a c) [EvSilence (l_idle (enforced_spec a c)) 0 0] = Err IdleTimeout.
-Proof. exact idle_not_advertised_refuted. Qed.
-Print Assumptions C12_idle_not_advertised_refuted.
+(** A parameter list WITHOUT max_idle_timeout (hand-made or suppressed) tells the peer "no idle
+    timeout": the repaired client then has none of its own (the enforced value is the "no idle
+    timeout" constant; applyTransportParams still takes the minimum with the peer's value), so the
+    list is covered like any other -- [C12_spec_client_ok] needs no hypothesis about the idle timeout.
+    Regression: the shape before (giving up after Config.MaxIdleTimeout all the same) was refuted. *)
+Theorem C12_idle_not_advertised_ok : forall a (c : config), l_idle a <= 0 -> noIdleNs <= l_idle (enforced_spec a c).
+Proof. exact idle_not_advertised_ok. Qed.
+Print Assumptions C12_idle_not_advertised_ok.
+
+Example C12_old_shape_idle_not_advertised_refuted : forall a (c : config), l_idle a <= 0 -> 0 < c_idle c < noIdleNs ->
+  play a (enforced c) [EvSilence (c_idle c) 0 0] = Err IdleTimeout.
+Proof. exact idle_not_advertised_old_shape_refuted. Qed.
+Print Assumptions C12_old_shape_idle_not_advertised_refuted.
 
 (** Non-vacuity: conformant histories exist and are played through (13 events, all kinds). *)
 Example C12_conformant_history_exists :
@@ -272,3 +279,48 @@ Theorem C12_limits_never_decrease : forall e h s s', inv s -> run_st e s h = Som
   forall k, cr (s k) <= cr (s' k) /\ rw (s k) <= rw (s' k) /\ cr (s' k) <= rw (s' k).
 Proof. exact limits_never_decrease. Qed.
 Print Assumptions C12_limits_never_decrease.
+
+(** Round 4. DATAGRAM frames (RFC 9221). Whatever the encoding -- with a length field (type 0x31)
+    or without (0x30, last frame of the packet) -- the client accepts a frame iff DATAGRAM support
+    is on and the TOTAL frame size (type byte, length field if present, payload) is within the
+    enforced limit; the error is FRAME_ENCODING_ERROR when support is off, PROTOCOL_VIOLATION
+    when the frame is too large. (A rule that subtracts a length field the frame does not have
+    rejects frames of advertised-1 / advertised bytes: the fixed table of both encodings at every
+    boundary replays exactly those.) *)
+Theorem C12_datagram_accept_iff : forall e s haslen payload,
+  snd (client_step e s (EvDgramEnc haslen payload)) = None <->
+  l_dgram (e_enf e) <> 0 /\ dgram_frame_size haslen payload <= l_dgram (e_enf e).
+Proof. exact dgram_accept_iff. Qed.
+Print Assumptions C12_datagram_accept_iff.
+
+Theorem C12_datagram_error_code : forall e s haslen payload,
+  client_step e s (EvDgramEnc haslen payload) =
+    (s, if l_dgram (e_enf e) =? 0 then Some FrameEncodingError
+        else if l_dgram (e_enf e) <? dgram_frame_size haslen payload then Some ProtocolViolation else None).
+Proof. exact dgram_enc_client. Qed.
+Print Assumptions C12_datagram_error_code.
+
+(** The sending side (Conn.SendDatagram, always with a length field): a payload is accepted iff the
+    frame it makes is within the PEER's max_datagram_frame_size and the payload within the MTU
+    estimate -- the largest payload is found exactly, also where the length field grows. *)
+Theorem C12_send_datagram_iff : forall mdfs mtu p, 0 <= p -> 2 <= mdfs <= maxVarInt8 ->
+  send_datagram_ok mdfs mtu p = true <-> (dgram_frame_size true p <= mdfs /\ p <= mtu).
+Proof. exact send_datagram_iff. Qed.
+Print Assumptions C12_send_datagram_iff.
+
+(** The excluded corner, as it is: max_datagram_frame_size = 1 leaves room for the type byte only,
+    yet the empty datagram is accepted and sent as a 2-byte frame. *)
+Example C12_send_datagram_mdfs1_corner : send_datagram_ok 1 1200 0 = true /\ dgram_frame_size true 0 = 2.
+Proof. exact send_datagram_mdfs1_corner. Qed.
+Print Assumptions C12_send_datagram_mdfs1_corner.
+
+(** The simulated connections (unit simlimits) are replayed through the same game (AdvEnf/SimRun.v):
+    what the in-tree server did is recorded as events (fresh streams [EvFresh], grants seen, connection
+    ID issuance and rotation, DATAGRAMs, silences) and the client's observed end state must be the
+    model's. By shape, for every parrot under the default Config, those histories are conformant and
+    end well: *)
+Example C12_simulated_histories_fine :
+  Forall (fun kv => let a := advertised kv in
+            Forall (fun h => play a (enforced_spec a default_config) h = Fine) (sim_shaped a)) advenf_all_specs.
+Proof. exact sim_shaped_fine. Qed.
+Print Assumptions C12_simulated_histories_fine.
